@@ -103,4 +103,15 @@ PROPS = {
                                         'SPI implementations return when their context is done (the property\'s premise for blocking calls)'],
         'notes': ['partial in the sense of the brief: the model cannot exhibit wall-clock bounds or leaked goroutines; those are observed on the real runtime at random cancellation points'],
     },
+    'C01': {
+        'engines': [{'name': 'world', 'quick_args': ['-n', '60'], 'thorough_args': ['-n', '1200']},
+                    {'name': 'worldkf1', 'quick_args': ['-n', '25'], 'thorough_args': ['-n', '300']}],
+        'corr_modules': ['Term'],
+        'trusted_base': ['theorems in coq/props/C01.v about coq/theories/World.v (global run model over Term.v; proofs in Own.v, World.v, AbsSafety.v) and WorldKF1.v'],
+        'assumptions': COMMON_ASSUME + ['unforgeability: a signature that verifies under a correct member\'s key was made by that member over exactly those header bytes (auth_msg); the harness key manager (per-member secret MAC) has this property',
+                                        'all correct committee members of the height use the same committee and instance id; total weight < 2^64; Byzantine weight <= floor((W-1)/3)',
+                                        'one term per height and node (C13); "same block" is equality of the block hash the consumer\'s ValidateBlockCommitment binds (collision freedom is the consumer\'s)',
+                                        'hypothesis of the proved (partial) theorem: no standalone PREPREPARE for a view above 0 is delivered to a correct member (known finding KF-1 otherwise)'],
+        'notes': ['full statement refuted (C01_full_statement_refuted: a kernel-checked forking run with one Byzantine member out of four); the same script forks the real nodes on every run of this check (KNOWN-FINDING KF-1)'],
+    },
 }
